@@ -185,7 +185,8 @@ class Scenario(object):
         if orders is not None:
             res["orders"] = [(o.asset, o.quantity, o.created_dt) for o in orders]
             self.exec_handler(ts(dt), orders)
-            res["pending_after_submit"] = self.broker.open_orders["pf"].qsize()
+            from .broker_rig import _pending
+            res["pending_after_submit"] = len(_pending(self.broker.open_orders["pf"]))
             res["holdings_before_fill"] = dict((a, int(v["quantity"])) for a, v in self.broker.get_portfolio_as_dict("pf").items())
             self.broker.update(ts(next_open))
             self.now = next_open
